@@ -23,6 +23,7 @@ RULE = ('programs x sequences of K<=2 control messages {rpc pause/play/kill/stat
         'handler\'s logical position; plus for every transition index x {ConnectionClosed, ChannelInvalidStateError, TimeoutError} one run with '
         'that broadcast failing; thorough adds delivery from a communicator thread; distinct by (program, plan, wrap); non-trivial when a '
         'handler ran on a live process')
+RULE += ('; also: replies dropped by the transport, broadcasts delivered by keyword, processes recreated from a terminal checkpoint, messages sent from a communicator thread while the loop is blocked in its selector')
 ASSUMPTIONS = ['the RabbitMQ transport itself is replaced by an in-process communicator that follows its observable protocol (pv/comm.py)',
                'an exception raised by a handler may reach the sender wrapped in RemoteException']
 REQUIRED = ['handlers_ran', 'twin_compared', 'replies_compared', 'announcements_checked', 'intent/pause', 'intent/play', 'intent/kill', 'intent/status',
